@@ -89,7 +89,7 @@ func defaultWeights() []W {
 		{"para", 30}, {"shortpara", 8}, {"heading", 6}, {"list", 8}, {"quote", 4}, {"pre", 2},
 		{"datatable", 4}, {"layouttable", 2}, {"figure", 5}, {"img", 5}, {"video", 2},
 		{"embed", 3}, {"hidden", 4}, {"script", 3}, {"form", 2}, {"links", 5}, {"unlikely", 3},
-		{"byline", 1}, {"social", 1}, {"divwrap", 6}, {"baretext", 3}, {"oddtext", 2},
+		{"byline", 1}, {"social", 1}, {"divwrap", 6}, {"baretext", 3}, {"oddtext", 2}, {"inlinenest", 1},
 	}
 }
 
@@ -668,6 +668,8 @@ func (g *PageGen) block(depth int) string {
 		return g.exotic(depth)
 	case "oddtext":
 		return g.oddText()
+	case "inlinenest":
+		return g.inlineNest()
 	}
 	return g.para()
 }
@@ -736,6 +738,26 @@ func (g *PageGen) oddText() string {
 		next = g.para()
 	}
 	return odd + "\n" + next
+}
+
+// inlineNest: a list, quote or pre that an inline style turns into an inline(-block) box, with
+// nothing but inline content between it and its text, inside a block container
+func (g *PageGen) inlineNest() string {
+	st := ` style="` + g.R.Pick("display:inline", "display: inline;", "display:inline-block", "display:inline-flex", "color:red;display:inline") + `"`
+	inl := func() string { return "<" + g.R.Pick("em", "b", "code", "span") + ">" + g.words(g.R.Range(3, 40)) + "</" + "em>" }
+	wrap := g.R.Pick("div", "section", "article")
+	var inner string
+	switch g.R.Intn(4) {
+	case 0:
+		inner = "<blockquote" + st + ">" + inl() + "</blockquote>"
+	case 1:
+		inner = "<pre" + st + "><code>" + g.words(g.R.Range(3, 30)) + "</code></pre>"
+	case 2:
+		inner = "<ul" + st + "><li" + st + "><b>" + g.words(g.R.Range(3, 30)) + "</b></li><li>" + g.words(5) + "</li></ul>"
+	default:
+		inner = "<ol><li" + st + ">" + g.words(g.R.Range(3, 30)) + " <i>" + g.words(3) + "</i></li></ol>"
+	}
+	return "<" + wrap + ">" + inner + "</" + wrap + ">\n"
 }
 
 func (g *PageGen) blocks(n, depth int) string {
